@@ -576,7 +576,10 @@ def generate(circuit=False):
     if not (ctor == "GeneralGate" and len(args) == 2 and up(args[1]) == "self.nwires"):
         raise Unsupported("GeneralGate.inverse: constructs `%s`" % ctor)
     im_, imty = MatTr({"self.mat": ("mat", "mat")}).expr(args[0])
-    expect(single_return(gg, "as_matrix"), "self.mat", "GeneralGate.as_matrix")
+    # the stored matrix itself, or a copy of it (both mean: the matrix the gate was given)
+    am = up(single_return(gg, "as_matrix"))
+    if am not in ("self.mat", "self.mat.copy()", "np.copy(self.mat)", "np.array(self.mat)"):
+        raise Unsupported("GeneralGate.as_matrix: expected `self.mat` (or a copy of it), found `%s`" % am)
     out += ["(* GeneralGate *)",
             "Definition gen_general_unitary_test (n : nat) (mat : BMx K) : (BMx K * BMx K)%%type :=\n  (%s, %s)." % (ua, ub),
             "Definition gen_general_hermitian_test (mat : BMx K) : (BMx K * BMx K)%%type :=\n  (%s, %s)." % (ha, hb),
